@@ -246,12 +246,56 @@ package mqtt
 // verif:func mqtt.Hooks.OnACLCheck trusted
 //@ ensures r0 == aclOK(cl, topic, write)
 
-// assumption A-hooks: a publish hook may rewrite payload and properties, but returns the packet with the
-// same packet identifier, QoS, retain flag, topic name and alias it was given
-// verif:func mqtt.Hooks.OnPublish trusted
+// C13 / C19: a client is admitted (an access is permitted) exactly if some hook that provides the
+// check allows it; with no such hook the answer is no.
+// verif:func mqtt.Hooks.OnConnectAuthenticate
+//@ requires !authAllowed
+//@ modifies authAllowed
+//@ ensures C13-admitted-only-if-a-hook-allowed: r0 <==> authAllowed
+//@ ensures C13-refused-means-no-providing-hook-allows: !r0 ==> (forall j int :: 0 <= j && j < len(hooksOf(h)) ==> !(hookProvides(hooksOf(h)[j], OnConnectAuthenticate) && hookAuth(hooksOf(h)[j], cl, pk)))
+//@ ensures C13-no-hook-no-admission: len(hooksOf(h)) == 0 ==> !r0
+// verif:loop mqtt.Hooks.OnConnectAuthenticate 1
+//@ invariant !authAllowed
+//@ invariant forall j int :: 0 <= j && j <= rangeindex ==> !(hookProvides(hooksOf(h)[j], OnConnectAuthenticate) && hookAuth(hooksOf(h)[j], cl, pk))
+
+// ---- C19: the publish hook chain ----
+// assumption A-hooks (interface contract, trusted): a publish hook may rewrite payload and properties, but
+// returns the packet with the same packet identifier, fixed header, topic name, ignore flag and times it
+// was given; a non-nil error is recorded in the ghost publishErr.
+// verif:func mqtt.Hook.OnPublish trusted
 //@ modifies publishErr
-//@ ensures publishErr == r1
-//@ ensures r1 == nil ==> r0.PacketID == pk.PacketID && r0.FixedHeader == pk.FixedHeader && r0.TopicName == pk.TopicName && r0.Ignore == pk.Ignore && r0.Expiry == pk.Expiry && r0.Created == pk.Created
+//@ ensures r1 != nil ==> publishErr == r1
+//@ ensures r1 == nil ==> publishErr == old(publishErr) && r0.PacketID == pk.PacketID && r0.FixedHeader == pk.FixedHeader && r0.TopicName == pk.TopicName && r0.Ignore == pk.Ignore && r0.Expiry == pk.Expiry && r0.Created == pk.Created
+// verif:spec hookProvides(iface, byte) bool
+// verif:spec hookAuth(iface, ref, packets.Packet) bool
+// verif:spec hookACL(iface, ref, string, bool) bool
+// verif:spec hooksOf(ref) []Hook
+// verif:func mqtt.Hook.Provides trusted pure
+//@ ensures r0 == hookProvides(self, b)
+// verif:func mqtt.Hook.ID trusted pure
+// ghost: some authentication hook has answered yes during this chain run
+// verif:ghost var authAllowed bool
+// verif:func mqtt.Hook.OnConnectAuthenticate trusted
+//@ modifies authAllowed
+//@ ensures r0 == hookAuth(self, cl, pk) && authAllowed == (old(authAllowed) || r0)
+// verif:func mqtt.Hook.OnACLCheck trusted pure
+//@ ensures r0 == hookACL(self, cl, topic, write)
+// registered hooks are never nil interfaces (AddHook dereferences them at registration)
+// verif:nonnil mqtt.Hook
+// verif:func mqtt.Hooks.GetAll trusted pure
+//@ ensures r0 == hooksOf(h)
+
+// Any error a publish hook returns (reject, ignore or other) ends the chain and is what the caller sees,
+// together with the original packet; without an error the caller gets the last hook's output.
+// verif:func mqtt.Hooks.OnPublish
+//@ requires publishErr == nil
+//@ modifies publishErr
+//@ ensures C19-chain-error-is-reported: publishErr == err
+//@ ensures C19-error-returns-original-packet: err != nil ==> pkx == pk
+//@ ensures C19-hooks-keep-identity: err == nil ==> pkx.PacketID == pk.PacketID && pkx.FixedHeader == pk.FixedHeader && pkx.TopicName == pk.TopicName && pkx.Ignore == pk.Ignore && pkx.Expiry == pk.Expiry && pkx.Created == pk.Created
+// verif:loop mqtt.Hooks.OnPublish 1
+//@ invariant publishErr == nil
+//@ invariant pkx.PacketID == pk.PacketID && pkx.FixedHeader == pk.FixedHeader && pkx.TopicName == pk.TopicName && pkx.Ignore == pk.Ignore && pkx.Expiry == pk.Expiry && pkx.Created == pk.Created
 
 // verif:func mqtt.Server.DisconnectClient trusted
 //@ modifies cl.nsent, cl.sentpk, cl.stopped, cl.disccode
